@@ -260,6 +260,14 @@ class FieldFamily:
                     if opt:
                         for e in ([2, 0, 1] + [0] * 9, [0, 0, 2, 0, 0, 1] + [0] * 6, [0] * 12, [0] * 11 + [1], [2] + [0] * 10 + [1]):
                             yield dict(opt=opt, p=p, d=12, mods=f[:12], seq=[["sgn0", [c % p for c in e], None]])
+            if opt:
+                for p in (7, REAL["bn128"], REAL["bls12_381"]):
+                    for d in (2, 12):
+                        cname = "bn128" if p != REAL["bls12_381"] else "bls12_381"
+                        mods = (small2[7][2] if d == 2 else irr12[7][0][:12]) if p == 7 else REAL_MODS[(cname, d)]
+                        for _ in range(2):
+                            yield dict(opt=True, p=p, d=d, mods=mods, seq=[["fqcoeffs", [rng.randrange(p) for _ in range(d)], [rng.randrange(1, p) for _ in range(d)]]])
+                        yield dict(opt=True, p=p, d=d, mods=mods, seq=[["fqcoeffs", [1] + [0] * (d - 1), [0] * (d - 1) + [1]]])
             # powers of the constants 0 and 1 (and of sparse elements) with exponents 0, 1, 2
             for p in (3, 7, REAL["bn128"]):
                 for d in (1, 2, 12):
@@ -362,6 +370,24 @@ class FieldFamily:
                     bad = expect("x.inv()", X.inv(), model_op("inv", p, f, x, None, d))
                     if bad:
                         return bad
+                elif op == "fqcoeffs":
+                    # the optimized classes accept FQ objects as coefficients (IntOrFQ): same values as with plain ints
+                    FQc = field_classes(p, 1, [], True)
+                    Xf, Yf = cls([FQc(c) for c in x]), cls([FQc(c) for c in arg])
+                    Xi, Yi = cls(list(x)), cls(list(arg))
+                    k_ = 7
+                    trials = [("x + y", lambda a, b: a + b), ("x - y", lambda a, b: a - b), ("x * y", lambda a, b: a * b), ("-x", lambda a, b: -a),
+                              ("x * k", lambda a, b: a * k_), ("k * x", lambda a, b: k_ * a), ("x / k", lambda a, b: a / k_),
+                              ("x / y", lambda a, b: a / b), ("x.inv()", lambda a, b: a.inv()), ("x ** 5", lambda a, b: a ** 5),
+                              ("x * y (mixed)", lambda a, b: a * Yi), ("x + y (mixed)", lambda a, b: Xi + b)]
+                    for label, f_ in trials:
+                        want = coeffs(f_(Xi, Yi))
+                        got = f_(Xf, Yf)
+                        if coeffs(got) != want:
+                            return dict(why=f"{label} with FQ-object coefficients over GF({p}) differs from the same operation on int coefficients",
+                                        observed=coeffs(got), expected=want, step=step)
+                    if (Xf == cls([FQc(c) for c in x])) is not True or int(Xf.sgn0) != rfc_sgn0([c % p for c in x]):
+                        return dict(why="== / sgn0 with FQ-object coefficients", step=step)
                 elif op == "construct":
                     want = [c % p for c in x]
                     if coeffs(X) != want:
@@ -390,7 +416,8 @@ class FieldFamily:
                 elif op == "sgn0_history":
                     Y = cls(arg[0]) if d == 1 else cls(list(arg))
                     _ = X.sgn0, Y.sgn0          # fill the caches first
-                    for label, R_ in (("x + y", X + Y), ("x - y", X - Y), ("y - x", Y - X), ("-x", -X), ("x * y", X * Y), ("x * 1", X * 1)):
+                    for label, R_ in (("x + y", X + Y), ("x - y", X - Y), ("y - x", Y - X), ("-x", -X), ("x * y", X * Y), ("x * 1", X * 1),
+                                      ("x * 2", X * 2), ("2 * x", 2 * X), ("x * (p-1)", X * (p - 1)), ("x / 2", X / 2), ("x / (p-1)", X / (p - 1))):
                         if int(R_.sgn0) != rfc_sgn0(coeffs(R_)):
                             return dict(why=f"sgn0({label}) after x.sgn0 was read differs from RFC 9380 (stale cached value)",
                                         observed=int(R_.sgn0), expected=rfc_sgn0(coeffs(R_)), step=step)
